@@ -275,6 +275,8 @@ type stepInfo struct {
 	fired    []string
 	trace    []simos.OpRec
 	ops      int
+	refFiles map[string][]byte
+	refStdin []byte
 }
 
 // cliExec is the interpreter for a CLI scenario.
@@ -358,6 +360,19 @@ func altChunks(c []int) []int {
 		return []int{4093, 1, 17, 4096}
 	}
 	return nil
+}
+
+// referenceAgain repeats the reference run of a step on a fresh machine,
+// bypassing the memo.
+func (x *cliExec) referenceAgain(s *stepInfo) (obs, bool) {
+	if s.refFiles == nil {
+		return obs{}, false
+	}
+	saved := x.refMemo
+	x.refMemo = map[string]obs{}
+	o := x.reference(s.run, s.refFiles, s.refStdin)
+	x.refMemo = saved
+	return o, true
 }
 
 func filesDigestFull(m map[string][]byte) string {
@@ -471,7 +486,7 @@ func (x *cliExec) runStep(i int, rs *runStep) {
 	core.Tick()
 	r := runGts(x.w, rs.Argv, spec)
 	real := obs{Status: r.Status, Stdout: r.Stdout, Files: userFiles(x.w), Killed: r.Killed, Panic: r.Panic}
-	info := &stepInfo{idx: i, run: rs, real: real, ref: ref, fired: r.Fired, trace: r.Trace, ops: r.Ops}
+	info := &stepInfo{idx: i, run: rs, real: real, ref: ref, fired: r.Fired, trace: r.Trace, ops: r.Ops, refFiles: files, refStdin: stdin}
 	h := sha256.New()
 	h.Write(stdin)
 	h.Write([]byte(filesDigestFull(files)))
@@ -653,6 +668,18 @@ func (x *cliExec) judge(s *stepInfo) {
 		return
 	}
 	class, sig := x.classify(s, what)
+	// Before blaming the cache: does the uncached run agree with itself? gts
+	// iterates Go maps in a few places; if an ordering ever leaks into the
+	// output, two reference runs differ and nothing about this step replays.
+	if again, ok := x.referenceAgain(s); ok {
+		if same2, what2 := sameObs(again, s.ref); !same2 {
+			cmd := "?"
+			if len(s.run.Argv) > 0 {
+				cmd = s.run.Argv[0]
+			}
+			class, sig = "nondeterministic-output", cmd+":"+what2
+		}
+	}
 	detail := fmt.Sprintf("step %d argv=%q stdin=%q differs from the --no-cache reference in %s: cached run %s, reference %s; cache outcome=%s",
 		s.idx, s.run.Argv, s.run.Stdin, what, s.real.summary(), s.ref.summary(), s.outcome())
 	if s.real.Panic != "" {
